@@ -8,8 +8,9 @@
    nodeAt returns THROUGH the cache.
    uint64 arithmetic is modelled in N without wrap-around: the functions agree for sizes < 2^58
    (nodesUpto(n) <= 65 n); at n = 0 Go's `n-1` wraps: nodesUntil(0) = nodesUpto(2^64-1) divides by
-   1<<64 = 0 and PANICS — reachable only through InclusionProof(0,0) / ConsistencyProof(0,0),
-   which the public wrappers below model explicitly.  No proofs in this file. *)
+   1<<64 = 0 and PANICS — no longer reachable: since /repo 172c7ab the public InclusionProof /
+   ConsistencyProof reject i = 0 (hence j = 0), rootAt rejects n = 0, Append reads node(k,l) with
+   k >= 1 only.  No proofs in this file. *)
 From V Require Export Merkle.Verify.
 
 Section AHT.
@@ -141,10 +142,11 @@ Fixpoint inclusion_loop (t : aht) (fuel : nat) (i j : N) (acc : list bytes) : re
 (* bits.Len64(j-1) *)
 Definition height_of (j : N) : nat := N.size_nat (j - 1).
 
+(* since /repo 172c7ab: `if i == 0 || i > j { return nil, ErrIllegalArguments }` (before it,
+   InclusionProof(0,0) wrapped j-1 to 2^64-1 and divided by 1<<64 in nodesUpto) *)
 Definition inclusion_proof (t : aht) (i j : N) : res (list bytes) :=
-  if j <? i then Err EIllegalArguments else
+  if (i =? 0) || (j <? i) then Err EIllegalArguments else
   if size t <? j then Err EUnexistent else
-  if j =? 0 then Panic (* j-1 wraps to 2^64-1: node(0,63) -> nodesUpto(2^64-1): divide by 1<<64 *) else
   inclusion_loop t (height_of j) i j [].
 
 (* ---- consistencyProof(i, j, height) ---- *)
@@ -172,9 +174,8 @@ Fixpoint consistency_loop (t : aht) (fuel : nat) (i j : N) (acc : list bytes) : 
   end.
 
 Definition consistency_proof (t : aht) (i j : N) : res (list bytes) :=
-  if j <? i then Err EIllegalArguments else
+  if (i =? 0) || (j <? i) then Err EIllegalArguments else
   if size t <? j then Err EUnexistent else
-  if j =? 0 then Panic else
   consistency_loop t (height_of j) i j [].
 
 (* ---- histories ---- *)
